@@ -27,7 +27,7 @@ META = {
         "quick": {"evaluations": 6000, "distinct_nontrivial": 1500, "tables": {"pending/yes": 3000, "stream/programs": 1500, "op": 5000, "stream/derived": 5000, "op/derived:sync_charges": 300, "op/derived:align_axes": 200, "op/derived:qr": 100}},
         "thorough": {"evaluations": 250000, "distinct_nontrivial": 40000, "tables": {"pending/yes": 100000, "stream/programs": 60000}},
     },
-    "wall": {"quick": 300, "thorough": 1500},
+    "wall": {"quick": 900, "thorough": 1500},
 }
 
 
